@@ -78,7 +78,7 @@ func init() {
 			"T1 — retain/release typestate: every packet obtained from RTPBuffer.Get is released exactly once after its last use, every slot overwrite in RTPBuffer.Add/Clear releases the previous occupant exactly once, Get hands out only packets that passed a successful Retain (a double release would recycle a buffer that is still being retransmitted); " +
 			"C1 — ring, stream table and reference count are only touched under their mutexes; A1 — the original packet is forwarded exactly once after the copy; D5 — unbind removes the stream's ring.",
 		notDecided:  "which sequence numbers the ring holds (window arithmetic seq%size, half-range tests), RTX header field values, the padding arithmetic, that the retransmission goroutine has finished when Close returns (known finding under C11)",
-		sels: []sel{s("T8", `inspected|\|(internal/rtpbuffer|pkg/nack)[.:]`), so("T7"), s("O5", `inspected|pkg/nack`), s("O2", `inspected|pkg/nack`), s("U2", `\|(internal/rtpbuffer|pkg/nack)[.:]`), s("U1", `\|(internal/rtpbuffer|pkg/nack)[.:]`), s("T6"), s("W1", `\|(internal/rtpbuffer|pkg/nack)[.:]`), s("V1", `\|(internal/rtpbuffer|pkg/nack)[.:]`), so("T5", `rtpbuffer`), so("C6", `nack\..*lookup-delete`), s("J5", `\|(internal/rtpbuffer|pkg/nack)[.:]`), so("T4", `rtpbuffer`), s("C8", `nack\.|inspected`), s("J4", `\|(internal/rtpbuffer|pkg/nack)[.:]`), so("F6", `rtpbuffer`), s("P3", `rtpbuffer\.RTPBuffer`), s("F2", `rtpbuffer`), s("B", `nack\.\(\*ResponderInterceptor\)`), s("T1"), so("T2"), s("C1", `pkg/nack\.(localStream|ResponderInterceptor)\.|rtpbuffer\.RetainablePacket\.`),
+		sels: []sel{s("O6"), s("T8", `inspected|\|(internal/rtpbuffer|pkg/nack)[.:]`), so("T7"), s("O5", `inspected|pkg/nack`), s("O2", `inspected|pkg/nack`), s("U2", `\|(internal/rtpbuffer|pkg/nack)[.:]`), s("U1", `\|(internal/rtpbuffer|pkg/nack)[.:]`), s("T6"), s("W1", `\|(internal/rtpbuffer|pkg/nack)[.:]`), s("V1", `\|(internal/rtpbuffer|pkg/nack)[.:]`), so("T5", `rtpbuffer`), so("C6", `nack\..*lookup-delete`), s("J5", `\|(internal/rtpbuffer|pkg/nack)[.:]`), so("T4", `rtpbuffer`), s("C8", `nack\.|inspected`), s("J4", `\|(internal/rtpbuffer|pkg/nack)[.:]`), so("F6", `rtpbuffer`), s("P3", `rtpbuffer\.RTPBuffer`), s("F2", `rtpbuffer`), s("B", `nack\.\(\*ResponderInterceptor\)`), s("T1"), so("T2"), s("C1", `pkg/nack\.(localStream|ResponderInterceptor)\.|rtpbuffer\.RetainablePacket\.`),
 			s("A1", `nack\.\(\*ResponderInterceptor\)`), s("D5", `nack\.ResponderInterceptor`)},
 		assumptions: stdAssume,
 	})
@@ -129,7 +129,7 @@ func init() {
 		explanation: "Decides the structural clauses the statement singles out: G1 — in every function that walks []*rtcp.RecvDelta with a cursor, no instruction that advances the cursor is control-dependent (post-dominator based, transitively) on a condition derived from a lookup in long-lived state (a comma-ok map lookup on a field, or a (T,bool) lookup predicate such as feedbackHistory.get): the arrival time decoded for a packet is independent of whether neighbouring packets are still in the history; " +
 			"G2 — in every symbol loop, the counter that feeds the attribution key (feedbackHistoryKey.sequenceNumber / acknowledgement.sequenceNumber) is advanced exactly once on every path through the loop body (path counting), or is the range index; F1 — every index into RecvDeltas / packet-derived slices is guarded; E2 — the flag that lets history.delete release the TWCC mapping is actually set.",
 		notDecided:  "arrival-time arithmetic (reference time ×64 ms, 250 µs deltas, RFC 8888 offsets), LRU contents of the sent-packet history, that each sent packet is reported at most once and in send order (value properties of history.buildReport), zero-valued acknowledgements emitted for unknown packets",
-		sels:        []sel{s("X6"), s("W4", `inspected|\|(pkg/(rtpfb|twcc|rfc8888|gcc|cc)|internal/cc)[.:]`), s("Z1", `inspected|\|(pkg/(rtpfb|twcc|rfc8888)|internal/cc)[.:]`), s("W2", `inspected|\|(pkg/(rtpfb|twcc|rfc8888)|internal/cc)[.:]`), s("E7"), s("X4", `inspected|\|pkg/(rtpfb|twcc|rfc8888|cc|gcc)[.:]`), s("G4", `inspected|internal/cc|rtpfb`), s("O4", `inspected|rtpfb|internal/cc`), s("O2", `inspected|rtpfb`), s("A9"), s("W1", `\|(pkg/rtpfb|internal/cc)[.:]`), s("V1", `\|(pkg/rtpfb|internal/cc)[.:]`), s("J5", `\|(pkg/rtpfb|internal/cc)[.:]`), s("F7"), s("G3", `rtpfb`), s("P3", `rtpfb\.history`), s("J3", `\|(pkg/rtpfb|internal/cc)[.:]`), so("G1"), so("G2"), so("F1", `rtpfb\.convertTWCC|FeedbackAdapter|rtpfb\.convert`), so("E2", `rtpfb\.history`), so("E1", `rtpfb\.history`)},
+		sels:        []sel{s("G5"), s("X6"), s("W4", `inspected|\|(pkg/(rtpfb|twcc|rfc8888|gcc|cc)|internal/cc)[.:]`), s("Z1", `inspected|\|(pkg/(rtpfb|twcc|rfc8888)|internal/cc)[.:]`), s("W2", `inspected|\|(pkg/(rtpfb|twcc|rfc8888)|internal/cc)[.:]`), s("E7"), s("X4", `inspected|\|pkg/(rtpfb|twcc|rfc8888|cc|gcc)[.:]`), s("G4", `inspected|internal/cc|rtpfb`), s("O4", `inspected|rtpfb|internal/cc`), s("O2", `inspected|rtpfb`), s("A9"), s("W1", `\|(pkg/rtpfb|internal/cc)[.:]`), s("V1", `\|(pkg/rtpfb|internal/cc)[.:]`), s("J5", `\|(pkg/rtpfb|internal/cc)[.:]`), s("F7"), s("G3", `rtpfb`), s("P3", `rtpfb\.history`), s("J3", `\|(pkg/rtpfb|internal/cc)[.:]`), so("G1"), so("G2"), so("F1", `rtpfb\.convertTWCC|FeedbackAdapter|rtpfb\.convert`), so("E2", `rtpfb\.history`), so("E1", `rtpfb\.history`)},
 		assumptions: std,
 	}
 	props["C16"] = &propDef{
@@ -157,7 +157,7 @@ func init() {
 		explanation: "Decides the structural clauses: M1 — in FlexEncoder03.encodeFlexFecPacket all accesses to the coverage table (GetCoveredBy, ExtractMask1/2/3_03) use one and the same index value, so the masks written name exactly the packets that were combined, and the repair sequence number is advanced exactly once on every path that produces a packet and on none that does not; " +
 			"P2 + A1 — the application's packet is forwarded first, exactly once, unmodified (A3), and repair packets are injections issued only after it; B — what is buffered for XOR is a deep copy of what was sent (caller may reuse its buffer); F2 — the scratch buffer is re-allocated when a packet exceeds the pooled size; E3/C1 — the batch buffer is reset on every path from the batch-full trigger, under the stream mutex.",
 		notDecided:  "XOR recoverability itself, bit layout of the masks, header offsets and length recovery — algebra over byte values; the coverage mask construction (flexfec_coverage.go); FlexEncoder20 and the decoder (declared work in progress)",
-		sels:        []sel{s("U4"), so("P4"), s("V3", `inspected|\|pkg/flexfec[.:]`), s("W2", `inspected|\|pkg/flexfec[.:]`), s("X4", `inspected|\|pkg/flexfec[.:]`), s("W1", `\|pkg/flexfec`), s("V1", `\|pkg/flexfec`), s("T5", `inspected|flexfec`), so("T4", `flexfec`), s("K4", `\|pkg/flexfec[.:]`), s("T3", `flexfec`), s("M1"), so("P2", `flexfec`), s("A1", `flexfec`), s("A3", `flexfec`), s("B", `flexfec`), so("F2", `flexfec`), so("E3", `flexfec`), s("C1", `flexfec\.`)},
+		sels:        []sel{so("G4", `\|pkg/flexfec[.:]`), s("U4"), so("P4"), s("V3", `inspected|\|pkg/flexfec[.:]`), s("W2", `inspected|\|pkg/flexfec[.:]`), s("X4", `inspected|\|pkg/flexfec[.:]`), s("W1", `\|pkg/flexfec`), s("V1", `\|pkg/flexfec`), s("T5", `inspected|flexfec`), so("T4", `flexfec`), s("K4", `\|pkg/flexfec[.:]`), s("T3", `flexfec`), s("M1"), so("P2", `flexfec`), s("A1", `flexfec`), s("A3", `flexfec`), s("B", `flexfec`), so("F2", `flexfec`), so("E3", `flexfec`), s("C1", `flexfec\.`)},
 		assumptions: std,
 	}
 	props["C17"] = &propDef{
@@ -165,7 +165,7 @@ func init() {
 		explanation: "Decides: Q1 — FIFO discipline of the queue API: the leaky-bucket pacer's list is only used through PushBack/Front/Remove(Front())/Len, the pacing interceptor's slice queue is appended at the tail, read at element 0 and cut [1:]; Q2 — in the consumer loop at most one downstream Write per dequeued packet and exactly one unless the stream has no writer (comma-ok lookup failed), and a pacer's Write returns a nil error only on paths that enqueued exactly once; " +
 			"Q3 — in the token-bucket loop every Write is dominated by a test of the limiter's budget and by a charge (AllowN) of the limiter; B — what is queued is a copy (header Clone, payload copy); F2 — the copy into the pooled buffer cannot truncate; C1 — queue and writer table under their mutexes; D2 — the consumer loops stop on Close.",
 		notDecided:  "the cumulative-bits inequality as a numeric bound; ordering across the lock hand-over in Run beyond the single-consumer structure; that NoOpPacer holds its lock across the downstream write (noted)",
-		sels:        []sel{s("C9", `inspected|gcc\.|pacing\.`), so("T4", `gcc\.`), s("C7", `gcc\.\(\*(LeakyBucket|NoOp)Pacer\)|pacing\.`), s("F5", `pkg/(pacing|gcc)\.`), s("Q1"), s("Q2"), s("Q3"), s("Q4"), s("B", `gcc\.\(\*(LeakyBucket|NoOp)Pacer\)|pacing\.`), s("F2", `gcc\.`), s("C1", `gcc\.(LeakyBucket|NoOp)Pacer\.|pacing\.`), s("D2", `gcc\.\(\*LeakyBucketPacer\)|pacing\.`)},
+		sels:        []sel{so("T3", `gcc\.`), s("C9", `inspected|gcc\.|pacing\.`), so("T4", `gcc\.`), s("C7", `gcc\.\(\*(LeakyBucket|NoOp)Pacer\)|pacing\.`), s("F5", `pkg/(pacing|gcc)\.`), s("Q1"), s("Q2"), s("Q3"), s("Q4"), s("B", `gcc\.\(\*(LeakyBucket|NoOp)Pacer\)|pacing\.`), s("F2", `gcc\.`), s("C1", `gcc\.(LeakyBucket|NoOp)Pacer\.|pacing\.`), s("D2", `gcc\.\(\*LeakyBucketPacer\)|pacing\.`)},
 		assumptions: std,
 	}
 	props["C19"] = &propDef{
@@ -321,6 +321,12 @@ func init() {
 	add("C18", "L2 also: a store to the playout head in a pop function is the head's previous value plus the constant one — a head set from the popped packet's own number (after a pop by timestamp) jumps over everything buffered in between.")
 	add("C19", "S8 also (once per packet): a `…Count++` on the statistics under the type switch over a compound's members sits in no loop the switch is not in — nackCount/pliCount/firCount are numbers of packets (webrtc-stats), not of matching FCI entries.")
 	add("C02", "W2 also (down-counting loops): a loop that walks a slice from the back and indexes it with the loop variable stops at a bound that cannot be negative — a constant, or len(s) − k only where k is min(len(s), …) or has been compared with the length: `i >= len(s)-limit` with a configured window ends at s[-1] while fewer than limit entries exist.")
+	add("C14", "G4 in pkg/flexfec: a result slice of repair packets allocated with one slot per FEC index and returned whole has every slot assigned — a slot filled only where encoding succeeded leaves a zero-valued rtp.Packet (SSRC 0, PT 0, version 0) that the interceptor writes as a repair packet.")
+	add("C07", "P3 also: every test that decides a store to the newest-sent mark is a comparison with its previous value, a configuration or first-packet test (a state field read directly and compared with a constant), or reads no mutable state of the stream — a test of something computed from other state (the age of the time reference) is a second way in for a packet the sequence comparison turned away.")
+	add("C18", "L2 also (accepting side): outside the pop functions, a store that sets the playout head from a packet handed in is dominated by the fact that the queue is empty — playback starts at the first packet buffered; a later, older packet that pulls the head back makes the first pop return it and strands every pop after that.")
+	add("C17", "T3 (taken elsewhere) in the leaky-bucket pacer: of two Put sites for the buffer of one dequeued item (direct, or through a repository helper that puts its parameter's buffer on some path) neither is reachable from the other without a new item being taken, unless the later one is decided by the earlier call's result — a buffer given back twice is handed to two accepted packets, and the second copy overwrites the first one's payload.")
+	add("C04", "O6 the callback the responder hands to rtcp.NackPair.Range returns true on every path: Range stops at the first false, and a callback that gives up after a failed downstream write (or a packet that has left the window) drops every later sequence number of the pair, packets that are still on file.")
+	add("C09", "G5 a function that copies several fields of one acknowledgement into one packet record overwrites each from that acknowledgement: a boolean status among them does not also depend on its own previous value (by data or through the test that selects the stored value) — `Arrived = Arrived || ack.arrived` beside an overwritten arrival time and ECN reports, after an overlapping older feedback, arrived-at-time-zero, a combination no feedback carried.")
 	add("C02", "F3 also (count form): a prefix `s[:n]` whose n is a count field of a received RTCP/RTP object (TransportLayerCC.PacketStatusCount, a report's length) is preceded by a comparison of n with len(s) or cap(s), or s was made with that very n: the count is what the sender claims, not what the chunks decoded to.")
 	add("C10", "O5 also: a local header *value* filled by dereferencing the stored header (`h := *pkt.Header()`) is not owned — its CSRC and extension slices are the stored ones; only Clone() or a fresh literal is.")
 	add("C17", "Q1 also (list queue): the function that removes from the pacer's queue never inserts into it — a packet taken out and put back at the tail is behind every packet accepted since, those of its own stream included.")
